@@ -48,6 +48,10 @@ type scenarioParams struct {
 
 func main() {
 	f := lib.ParseFlags()
+	if os.Getenv("C08_PROBE") == "null" {
+		probeNull()
+		return
+	}
 	if os.Getenv("C08_PROBE") != "" {
 		probeStale()
 		return
